@@ -8,7 +8,7 @@ hook_commits = [l.split()[0] for l in hooks if "verif-hooks" in l]
 E1 = "E1 explorer over the real generator (harness/src/explore.rs)"
 checks = {
  "C01": ("explicit-state closure of the generator's abstract states through its entropy seam; oracle = reference pickle machine (pickletools.dis rules), bound to CPython by replay",
-         "Every transition is a complete generation of the real code (header, body, cleanup, STOP, FRAME patch) judged by a reference machine with the acceptance rule of pickletools.dis; the closure runs to fixpoint inside a box on stack depth and memo size, from the initial state and from scenario states (256-entry memo, 300-deep stack, 40 MARKs), for 6 protocols x {no mutators, all 7 safe mutators with every gate both ways}; states one slot deeper than the box still run their operand-consuming opcodes; the third pickle of a reused generator and a PRNG seed sweep go through the same oracle.",
+         "Every transition is a complete generation of the real code (header, body, cleanup, STOP, FRAME patch) judged by a reference machine with the acceptance rule of pickletools.dis; the closure runs to fixpoint inside a box on stack depth and memo size, from the initial state and from scenario states (256-entry memo, 300-deep stack, 40 MARKs), for 6 protocols x {no mutators, all 7 safe mutators with every gate both ways}; states one slot deeper than the box still run their operand-consuming opcodes; the third pickle of a reused generator and a PRNG seed sweep go through the same oracle; long programs (10 003 / 20 005 / 30 000 opcodes: the empty input and six always-the-same-opcode strategies per protocol) are run untraced and judged from the bytes.",
          "value draws explored over boundary alphabets with a per-step deviation budget; states merged by kind classes + enabled-opcode mask; PRNG mode covered by subsumption plus a labelled seed sweep; reference machine bound to CPython 3.11 pickletools on the collected outputs", "§4 C01"),
  "C02": ("same closure as C01 plus memo scenarios (255/256/257 entries) under OffByOne/MemoIndex(safe) at rate 1.0; oracle = memo rules of pickletools.dis in the reference machine",
          "GET resolves / PUT fresh / never on MARK, checked on every complete output of the closure and of the large-memo scenarios where the 1-byte BINPUT/BINGET forms run out.",
@@ -28,7 +28,7 @@ checks = {
          "interleavings only at entropy-draw granularity; pointer-hashed containers and ASLR only sampled", "§4 C07"),
  "C08": ("all call histories (generate_from_arbitrary x inputs, generate, reset) up to length 3 (4) on one generator; differential oracle against a fresh generator",
          "No expected bytes are written by hand: the i-th call must return what a fresh, equally configured generator returns; size-class histories put a 14k-30k opcode result before small ones.", "call alphabet of 6 (8) calls plus range assignments; history length bound", "§4 C08"),
- "C09": ("alias-exact closure of all opcode sequences up to Lp; all 65,793 byte strings of length <= 2 x configurations; degenerate knob grid (NaN/out-of-range rates, min>max); 10k (30k) opcode strategies in child processes on a 2 MiB stack with a watchdog",
+ "C09": ("alias-exact closure of all opcode sequences up to Lp; all 65,793 byte strings of length <= 2 x configurations; degenerate knob grid (NaN/out-of-range rates, min>max); 10k (30k) opcode strategies in child processes on a 2 MiB stack with a watchdog; mutator lists as multisets (ordered pairs incl. repeated mutators)",
          "Ok / non-empty / no unwind / child exit 0 on everything enumerated; plus kind-keyed and alias-relation closures with value deviations; an in-process hang ends the check with a VIOLATION through the watchdog.", "termination is judged by a watchdog (45 s / 180 s per generation); harness built with overflow checks on", "§4 C09"),
  "C10": ("closure for the four flag combinations x {none, all-unsafe, reversed-unsafe} per protocol; oracle = histogram of decoded opcodes",
          "EXT*/buffer opcodes never occur unless their flag is on, also under type confusion and byte rewriting.", "as C04", "§4 C10"),
